@@ -354,19 +354,16 @@ def inv_sign_rule(ctx):
             return m
 
         fmap, imap = grouped(fr), grouped(ir)
-        ambiguous = False
-        for m in (fmap, imap):
-            for k, pps in m.items():
-                # only paths that were told apart by a one-sided test are in question
-                full = {}
-                for pp in pps:
-                    full.setdefault(_cond_key(pp), pp)
-                lds = {shash(_ld_of_path(pp)) if _ld_of_path(pp) is not None else None for pp in full.values()}
-                if len(full) > 1 and len(lds) > 1:
-                    ambiguous = True
-        if ambiguous:
-            res.undecide(label, "a test made by one direction only changes that direction's log-det")
-            continue
+
+        def reps(pps):
+            """one representative per distinct log-det expression (paths told apart by a test only this direction
+            makes -- a lazily filled table, a direction-specific guard -- usually carry the same one)"""
+            out = {}
+            for pp in pps:
+                ld = _ld_of_path(pp)
+                out.setdefault(shash(ld) if ld is not None else None, pp)
+            return list(out.values())
+
         common = set(fmap) & set(imap)
         if not common:
             if len(fmap) == 1 and len(imap) == 1:
@@ -376,9 +373,15 @@ def inv_sign_rule(ctx):
             else:
                 res.undecide(label, "forward and inverse distinguish different cases (%d / %d paths)" % (len(fmap), len(imap)))
                 continue
+        combos = []
         for key in sorted(common, key=lambda k: sorted(map(str, k))):
-            a = _ld_of_path(fmap[key][0])
-            b = _ld_of_path(imap[key][0])
+            ra, rb = reps(fmap[key]), reps(imap[key])
+            for pa in ra:
+                for pb in rb:
+                    combos.append((key, pa, pb, len(ra) > 1 or len(rb) > 1))
+        for key, pa, pb, multi in combos:
+            a = _ld_of_path(pa)
+            b = _ld_of_path(pb)
             if a is None or b is None:
                 continue
             if size_upto(a, 6000) > 6000 or size_upto(b, 6000) > 6000:
@@ -389,7 +392,7 @@ def inv_sign_rule(ctx):
             # delegating pair components (component 1 of a call): sign only
             ka = sorted((s, leaf_key(l)) for s, l in ta)
             kb = sorted((-s, leaf_key(l)) for s, l in tb)
-            node = imap[key][0].ret_node
+            node = pb.ret_node
             if not ta and not tb:
                 res.ok("%s: zero log-det in both directions" % label, nontrivial=False)
                 continue
@@ -429,6 +432,11 @@ def inv_sign_rule(ctx):
                 continue
             if len(ta) == len(tb) and len({s for s, l in ta}) == 1 and len({s for s, l in tb}) == 1 and ta[0][0] == -tb[0][0]:
                 res.ok("%s: same number of leaves, all of one sign, opposite in the two directions" % label)
+                continue
+            if multi:
+                # several log-det expressions under one shared case and this pairing does not match: a test made by one
+                # direction only changes that direction's log-det -- which pairing is meant is not decidable here
+                res.undecide(label, "a test made by one direction only changes that direction's log-det")
                 continue
             res.fail(Finding("INV-SIGN", fi.module, fi.qualname, node, "%s: the inverse's log-abs-det is not the negation of the forward's: forward leaves %s, inverse leaves %s" % (label, [(s, k[:40]) for s, k in sorted((s, leaf_key(l)) for s, l in ta)][:6], [(s, k[:40]) for s, k in sorted((s, leaf_key(l)) for s, l in tb)][:6])))
     if len(res.instances) < 20:
@@ -1297,7 +1305,26 @@ def orth_rule(ctx):
             if norm_text(r.args[0]) != x:
                 res.fail(Finding("ORTH-REV", fi.module, fi.qualname, path.ret_node, "%s must apply the reflections to its inputs" % nm))
                 continue
-            o = _row_order(r.args[1])
+            rows = r.args[1]
+            # a zero-argument accessor whose every return is `self.q_vectors` stands for the stored rows (what else
+            # it does on the way -- a write to the parameter -- is the ownership analysis' business, C13)
+            accessors = {}
+            for an, am in hs.methods.items():
+                if len(am.params()) == 0 or (len(am.params()) == 1 and am.params()[0][0] == "self"):
+                    rets = [x.value for x in ast.walk(am.node) if isinstance(x, ast.Return)]
+                    if rets and all(v is not None and norm_text(v) == "self.q_vectors" for v in rets):
+                        accessors["self.%s()" % an] = True
+            if accessors and any(isinstance(x, ast.Call) and norm_text(x) in accessors for x in ast.walk(rows)):
+                class _Acc(ast.NodeTransformer):
+                    def visit_Call(self, n):
+                        if norm_text(n) in accessors:
+                            return ast.copy_location(ast.parse("self.q_vectors", mode="eval").body, n)
+                        return self.generic_visit(n)
+
+                import copy as _copy
+
+                rows = ast.fix_missing_locations(_Acc().visit(_copy.deepcopy(rows)))
+            o = _row_order(rows)
             if o is None:
                 res.undecide("HouseholderSequence.%s" % nm, "cannot decide the order of the rows `%s`" % norm_text(r.args[1])[:70])
             elif isinstance(o, tuple):
@@ -1604,103 +1631,117 @@ def orth_init_rule(ctx):
     if getattr(ctx, "tier", "quick") == "thorough":
         GRID = [(f, k) for f in range(1, 25) for k in range(1, 60)]
 
-    def enclosing_conds(node):
-        out = []
-        cur = node
-        while cur is not None and cur is not init.node:
-            par = getattr(cur, "_parent", None)
-            if isinstance(par, ast.If):
-                if cur in par.body:
-                    out.append((par.test, True))
-                elif cur in par.orelse:
-                    out.append((par.test, False))
-            if isinstance(par, ast.FunctionDef) and par is not init.node:
-                return None  # inside a nested helper: not a constructor-level expression
-            cur = par
-        return out
-
-    def holds(conds, env):
-        for t, pol in conds:
-            try:
-                if bool(_int_eval(t, env)) != pol:
-                    return False
-            except _NoEval:
-                continue
-        return True
-
-    # constructor locals assigned exactly once are read through (num_pairs = num_transforms // 2)
-    local_defs = {}
-    for st in ast.walk(init.node):
-        if isinstance(st, ast.Assign) and len(st.targets) == 1 and isinstance(st.targets[0], ast.Name):
-            local_defs.setdefault(st.targets[0].id, []).append(st.value)
-
-    class _Res(ast.NodeTransformer):
-        def visit_Name(self, node):
-            vals = local_defs.get(node.id, [])
-            if node.id not in ("features", "num_transforms") and len(vals) == 1 and isinstance(node.ctx, ast.Load):
-                from ..symexp import clone
-
-                return self.visit(clone(vals[0]))
-            return node
-
-    _orig_eval = _int_eval
-
-    def _int_eval(e, env):  # noqa: F811
-        from ..symexp import clone
-
-        return _orig_eval(_Res().visit(clone(e)), env)
-
+    # the constructor, and the helpers of the class it hands exactly (features, num_transforms) to
+    scopes = [init]
+    for c in ast.walk(init.node):
+        if isinstance(c, ast.Call) and isinstance(c.func, ast.Attribute) and isinstance(c.func.value, ast.Name) and c.func.value.id in ("self", "HouseholderSequence", "cls") and c.func.attr in hs.methods:
+            m = hs.methods[c.func.attr]
+            mp = [a for a, _ in m.params()]
+            passed = [norm_text(a) for a in c.args] + ["%s=%s" % (k.arg, norm_text(k.value)) for k in c.keywords]
+            if mp and set(mp) <= {"features", "num_transforms"} and all(x in ("features", "num_transforms", "features=features", "num_transforms=num_transforms") for x in passed) and [x.split("=")[0] for x in passed] == mp[: len(passed)] and all(m is not x for x in scopes):
+                scopes.append(m)
+    _int_eval0 = _int_eval
     n = 0
     undecided = []
-    for node in ast.walk(init.node):
-        # (a) torch.eye(R, C): rows >= C are zero
-        if isinstance(node, ast.Call) and norm_text(node.func) == "torch.eye" and len(node.args) >= 2:
-            conds = enclosing_conds(node)
-            if conds is None:
-                continue
-            n += 1
-            witness = None
-            for f, k in GRID:
-                env = {"features": f, "num_transforms": k}
-                if not holds(conds, env):
-                    continue
+
+    def scan(scope):
+        nonlocal n
+        def enclosing_conds(node):
+            out = []
+            cur = node
+            while cur is not None and cur is not scope.node:
+                par = getattr(cur, "_parent", None)
+                if isinstance(par, ast.If):
+                    if cur in par.body:
+                        out.append((par.test, True))
+                    elif cur in par.orelse:
+                        out.append((par.test, False))
+                if isinstance(par, ast.FunctionDef) and par is not scope.node:
+                    return None  # inside a nested helper: not a constructor-level expression
+                cur = par
+            return out
+
+        def holds(conds, env):
+            for t, pol in conds:
                 try:
-                    r, c = _int_eval(node.args[0], env), _int_eval(node.args[1], env)
+                    if bool(_int_eval(t, env)) != pol:
+                        return False
                 except _NoEval:
-                    undecided.append(norm_text(node)[:60])
-                    witness = None
-                    break
-                if r > c:
-                    witness = (f, k, r, c)
-                    break
-            if witness is not None:
-                res.fail(Finding("ORTH-INIT", init.module, init.qualname, node, "`%s` has %d rows but only %d columns for features=%d, num_transforms=%d: the rows beyond the %d-th are zero vectors, and a reflection about a zero vector is 0/0 (NaN outputs)" % (norm_text(node)[:50], witness[2], witness[3], witness[0], witness[1], witness[3]), construct="rows of the initial reflection vectors"))
-            elif norm_text(node)[:60] not in undecided:
-                res.ok("%s: never more rows than columns" % norm_text(node)[:50])
-        # (b) stores q[i, J] = v into the vectors: J must be a column
-        if isinstance(node, ast.Assign) and len(node.targets) == 1 and isinstance(node.targets[0], ast.Subscript) and isinstance(node.targets[0].slice, ast.Tuple) and len(node.targets[0].slice.elts) == 2:
-            conds = enclosing_conds(node)
-            if conds is None:
-                continue
-            col = node.targets[0].slice.elts[1]
-            n += 1
-            witness = None
-            for f, k in GRID:
-                env = {"features": f, "num_transforms": k}
-                if not holds(conds, env):
                     continue
-                try:
-                    j = _int_eval(col, env)
-                except _NoEval:
-                    undecided.append(norm_text(node)[:60])
-                    break
-                if not (-f <= j < f):
-                    witness = (f, k, j)
-                    break
-            if witness is not None:
-                res.fail(Finding("ORTH-INIT", init.module, init.qualname, node, "`%s` writes column %d of vectors with %d features for features=%d, num_transforms=%d: the constructor raises IndexError for arguments it accepts" % (norm_text(node)[:50], witness[2], witness[0], witness[0], witness[1]), construct="column written by the constructor"))
-            elif norm_text(node)[:60] not in undecided:
-                res.ok("%s: column always in range" % norm_text(node)[:50])
+            return True
+
+        # constructor locals assigned exactly once are read through (num_pairs = num_transforms // 2)
+        local_defs = {}
+        for st in ast.walk(scope.node):
+            if isinstance(st, ast.Assign) and len(st.targets) == 1 and isinstance(st.targets[0], ast.Name):
+                local_defs.setdefault(st.targets[0].id, []).append(st.value)
+
+        class _Res(ast.NodeTransformer):
+            def visit_Name(self, node):
+                vals = local_defs.get(node.id, [])
+                if node.id not in ("features", "num_transforms") and len(vals) == 1 and isinstance(node.ctx, ast.Load):
+                    from ..symexp import clone
+
+                    return self.visit(clone(vals[0]))
+                return node
+
+        def _int_eval(e, env, _orig_eval=_int_eval0):  # noqa: F811
+            from ..symexp import clone
+
+            return _orig_eval(_Res().visit(clone(e)), env)
+
+        for node in ast.walk(scope.node):
+            # (a) torch.eye(R, C): rows >= C are zero
+            if isinstance(node, ast.Call) and norm_text(node.func) == "torch.eye" and len(node.args) >= 2:
+                conds = enclosing_conds(node)
+                if conds is None:
+                    continue
+                n += 1
+                witness = None
+                for f, k in GRID:
+                    env = {"features": f, "num_transforms": k}
+                    if not holds(conds, env):
+                        continue
+                    try:
+                        r, c = _int_eval(node.args[0], env), _int_eval(node.args[1], env)
+                    except _NoEval:
+                        undecided.append(norm_text(node)[:60])
+                        witness = None
+                        break
+                    if r > c:
+                        witness = (f, k, r, c)
+                        break
+                if witness is not None:
+                    res.fail(Finding("ORTH-INIT", init.module, init.qualname, node, "`%s` has %d rows but only %d columns for features=%d, num_transforms=%d: the rows beyond the %d-th are zero vectors, and a reflection about a zero vector is 0/0 (NaN outputs)" % (norm_text(node)[:50], witness[2], witness[3], witness[0], witness[1], witness[3]), construct="rows of the initial reflection vectors"))
+                elif norm_text(node)[:60] not in undecided:
+                    res.ok("%s: never more rows than columns" % norm_text(node)[:50])
+            # (b) stores q[i, J] = v into the vectors: J must be a column
+            if isinstance(node, ast.Assign) and len(node.targets) == 1 and isinstance(node.targets[0], ast.Subscript) and isinstance(node.targets[0].slice, ast.Tuple) and len(node.targets[0].slice.elts) == 2:
+                conds = enclosing_conds(node)
+                if conds is None:
+                    continue
+                col = node.targets[0].slice.elts[1]
+                n += 1
+                witness = None
+                for f, k in GRID:
+                    env = {"features": f, "num_transforms": k}
+                    if not holds(conds, env):
+                        continue
+                    try:
+                        j = _int_eval(col, env)
+                    except _NoEval:
+                        undecided.append(norm_text(node)[:60])
+                        break
+                    if not (-f <= j < f):
+                        witness = (f, k, j)
+                        break
+                if witness is not None:
+                    res.fail(Finding("ORTH-INIT", init.module, init.qualname, node, "`%s` writes column %d of vectors with %d features for features=%d, num_transforms=%d: the constructor raises IndexError for arguments it accepts" % (norm_text(node)[:50], witness[2], witness[0], witness[0], witness[1]), construct="column written by the constructor"))
+                elif norm_text(node)[:60] not in undecided:
+                    res.ok("%s: column always in range" % norm_text(node)[:50])
+
+    for scope in scopes:
+        scan(scope)
     for u in undecided:
         res.undecide("HouseholderSequence.__init__ `%s`" % u, "not a closed integer formula of (features, num_transforms)")
     if n < 1:
